@@ -19,6 +19,8 @@ class LoopSpec(object):
         self.shapes = {}         # name -> Shape (for variables whose kind cannot be inferred)
         self.hints = []          # (where, ast expr) lemma uses at 'head' / 'body_end' / 'exit'
         self.unroll = None
+        self.body_ensures = []   # per-iteration postconditions (may use head(x) and _yielded)
+        self.body_raises = []    # (class expr, when expr over the iteration-head state)
 
 
 class Interp3(Interp2):
@@ -41,8 +43,17 @@ class Interp3(Interp2):
     def x_Expr(self, n):
         if isinstance(n.value, ast.Constant):
             return
-        if isinstance(n.value, (ast.Yield, ast.YieldFrom)):
-            raise OutOfReach('yield')
+        if isinstance(n.value, ast.Yield):
+            v = self.eval(n.value.value) if n.value.value is not None else None
+            f = self.frame
+            while f is not None and getattr(f, 'collect', None) is None:
+                f = f.parent
+            if f is None:
+                raise OutOfReach('yield outside a collecting context')
+            f.collect.append(v)
+            return
+        if isinstance(n.value, ast.YieldFrom):
+            raise OutOfReach('yield from')
         self.eval(n.value)
 
     def x_Global(self, n):
@@ -357,6 +368,14 @@ class Interp3(Interp2):
     def x_For(self, n):
         spec = self.loop_spec_for(n)
         it = self.eval(n.iter)
+        ci = self.custom_iter(it)
+        if ci is not None and (is_sym(it) or isinstance(it, Ref)):
+            it = self.call_value(ci, [it], {})
+        if isinstance(it, GenVal) and it.kind == 'rawiter':
+            from .scriptiter import rawiter_loop
+            return rawiter_loop(self, n, spec, it.payload)
+        if isinstance(it, GenVal) and it.kind == 'genfn':
+            it = self.run_generator(it)
         items = None
         if spec is None or spec.unroll is not None:
             items = self.try_iter_concrete(it)
@@ -381,6 +400,27 @@ class Interp3(Interp2):
             raise OutOfReach('for loop over symbolic-length iterable without invariant (%s line %d)'
                              % (self.frame.fname, n.lineno))
         self.invariant_loop(n, spec, kind='for', iterable=it)
+
+    def run_generator(self, g):
+        """Consume a generator function call completely; returns the list of yields
+        (a heap list; symbolic if the generator loops over symbolic data)."""
+        fr, node = g.payload
+        acc = []
+        fr.collect = acc
+        saved = self.frame
+        self.frame = fr
+        self.depth += 1
+        try:
+            try:
+                self.exec_block(node.body)
+            except ReturnSig:
+                pass
+        finally:
+            self.depth -= 1
+            self.frame = saved
+        if getattr(fr, 'collect_unknown', False):
+            return Opaque('values produced by a generator with a summarised loop', list)
+        return self.alloc(ListCell(items=list(acc)))
 
     def lazy_for(self, n, lz):
         """Bounded unrolling of a lazily produced iteration (generators with a
@@ -511,6 +551,7 @@ class Interp3(Interp2):
 
     def invariant_loop(self, n, spec, kind, iterable=None):
         where = '%s:%d' % (self.frame.fname, n.lineno)
+        self.mark_collect_unknown()
         names, recv = self.assigned_names(n.body + ([] if kind == 'for' else []))
         if kind == 'while':
             pass
@@ -579,6 +620,12 @@ class Interp3(Interp2):
             if kind == 'for':
                 self.assign_target(n.target, elem(kterm))
             self.run_hints(spec, 'body', ghost)
+            head_snap = self.snapshot()
+            ghost['__head__'] = head_snap
+            cf = self.frame
+            while cf is not None and getattr(cf, 'collect', None) is None:
+                cf = cf.parent
+            y0 = len(cf.collect) if cf is not None else 0
             try:
                 self.exec_block(n.body)
             except BreakSig:
@@ -587,6 +634,21 @@ class Interp3(Interp2):
                 return
             except ContinueSig:
                 pass
+            except PyRaise as pr:
+                if spec.body_raises:
+                    allowed = []
+                    for (cn, when) in spec.body_raises:
+                        cls = self.eval_clause_value(cn, ghost)
+                        if issubclass(pr.exc.cls, cls):
+                            allowed.append(self.eval_clause(when, ghost) if when is not None else z3.BoolVal(True))
+                    self.oblige(z3.Or(*allowed) if allowed else z3.BoolVal(False), 'body-raises',
+                                'iteration raises %s only as the loop contract allows' % pr.exc.cls.__name__, where)
+                raise
+            if spec.body_ensures:
+                be = {'_k': SInt(kterm), '__loop_entry__': loop_entry, '__head__': head_snap,
+                      '_yielded': tuple(cf.collect[y0:]) if cf is not None else ()}
+                for e in spec.body_ensures:
+                    self.oblige(self.eval_clause(e, be), 'body-post', ast.unparse(e), where)
             nxt = {'_k': self.wrap_int(kterm + 1), '__loop_entry__': loop_entry}
             self.run_hints(spec, 'body_end', nxt)
             for inv in spec.invariants:
@@ -598,6 +660,13 @@ class Interp3(Interp2):
         # exit path
         self.run_hints(spec, 'exit', ghost)
         self.exec_block(n.orelse)
+
+    def mark_collect_unknown(self):
+        f = self.frame
+        while f is not None:
+            if getattr(f, 'collect', None) is not None:
+                f.collect_unknown = True
+            f = f.parent
 
     def try_lookup_local(self, nm):
         f = self.frame
